@@ -788,6 +788,290 @@ def scope_stream(run, rng, thorough):
                          'on ::before/::after/::marker, default decimal markers on the other list items')
 
 
+# ------------------------------------------- element counters mixed with page-based / target content (renders)
+
+EXTRAS = ['P', 'T', 'X', 'C', 'PT', 'PX', 'PC', 'TX', 'CT', 'PTC']
+EXTRA_CSS = {
+    'P': ' "~P" counter(page) "/" counter(pages)',
+    'T': ' "~T" target-counter(attr(href), page)',
+    'X': ' "~X" target-text(attr(href))',
+    'C': ' "~C" ' + ' "|" '.join('target-counters(attr(href), %s, ".")' % n for n in OBS_NAMES),
+}
+
+
+def gen_mixed_doc(rng, flavour=None):
+    """a counter tree as in scope-renders, paginated (small pages), where most generated boxes append to the element
+    counters a page-based counter, a target-counter / target-counters / target-text of an element before or after
+    them (attr(href)), or several of these: such content is parsed again after the first parse.
+    Flavours: 'clean' (the root resets the four observed counters, so that every counter()/target-counter() names a
+    counter that exists; no page-based content in ::marker; page counters before target counters) and three that
+    each add one feature with a known defect: 'undefined' (no root reset), 'marker' (page-based / target content in
+    ::marker), 'target-first' (target-counter(.., page) before counter(pages))."""
+    if flavour is None:
+        r = rng.random()
+        flavour = 'clean' if r < 0.8 else 'undefined' if r < 0.88 else 'marker' if r < 0.95 else 'target-first'
+    counter = [0]
+    root = {'id': 'e0', 'tag': 'div', 'display': None,
+            'props': {'reset': None if flavour == 'undefined' else [[n, 0] for n in OBS_NAMES], 'set': None, 'inc': None},
+            'before': None, 'after': None, 'marker': 'default', 'kids': []}
+    for _ in range(rng.choice([2, 3, 4])):
+        root['kids'].append(gen_scope_node(rng, rng.choice([1, 2]), counter, False))
+    shown, leaves = [], []
+    def walk(n, visible):
+        e = eff_props(n)
+        visible = visible and e['displayed']
+        if visible:
+            shown.append(n)
+            if not n['kids'] and n['before'] is None and n['after'] is None:
+                leaves.append(n['id'])
+        for k in n['kids']:
+            walk(k, visible)
+    walk(root, True)
+    ids = [n['id'] for n in shown]
+    for n in shown:
+        n['extra'] = {}
+        others = [i for i in ids if i != n['id']]
+        if not others:
+            continue
+        want_text = bool(leaves) and rng.random() < 0.4 and [l for l in leaves if l != n['id']]
+        n['href'] = rng.choice([l for l in leaves if l != n['id']]) if want_text else rng.choice(others)
+        kinds = [k for k in ('before', 'after') if n[k] is not None]
+        if flavour == 'marker' and eff_props(n)['list_item'] and n['marker'] == 'content':
+            kinds.append('marker')
+        for k in kinds:
+            if rng.random() < 0.75:
+                x = rng.choice(EXTRAS)
+                if not want_text:
+                    x = x.replace('X', 'T' if 'T' not in x else '')
+                x = x or 'P'
+                if flavour == 'target-first' and 'P' in x and 'T' in x:
+                    x = 'T' + x.replace('T', '')
+                n['extra'][k] = x
+    return {'root': root, 'page_h': rng.choice([30, 40, 60, 90]), 'order': ids, 'flavour': flavour}
+
+
+def mixed_html(doc):
+    rules, body = [], []
+    def content(n, kind):
+        return CONTENT + ''.join(EXTRA_CSS[x] for x in n.get('extra', {}).get(kind, ''))
+    def walk(n):
+        decl = props_css(n['props'])
+        if n['display']:
+            decl.append('display: ' + n['display'])
+        if decl:
+            rules.append('#%s { %s }' % (n['id'], '; '.join(decl)))
+        for kind in ('before', 'after'):
+            if n[kind] is not None:
+                rules.append('#%s::%s { content: %s; %s }' % (n['id'], kind, content(n, kind), '; '.join(props_css(n[kind]))))
+        if n['marker'] == 'content':
+            rules.append('#%s::marker { content: %s }' % (n['id'], content(n, 'marker')))
+        body.append('<%s id="%s"%s>' % (n['tag'], n['id'], ' href="#%s"' % n['href'] if n.get('href') else ''))
+        if not n['kids']:
+            body.append('w' + n['id'][1:])
+        for k in n['kids']:
+            walk(k)
+        body.append('</%s>' % n['tag'])
+    walk(doc['root'])
+    return ('<style>@page{size:30000px %dpx;margin:0} body{margin:0;font-family:weasyprint;font-size:10px;white-space:nowrap;'
+            'line-height:10px} ol,ul,li,div,section{margin:0;padding:0} li, div, section, span, ol, ul {list-style-position:inside;'
+            'list-style-type:decimal}\n%s</style>%s' % (doc['page_h'], '\n'.join(rules), ''.join(body)))
+
+
+def stacks_lit(v):
+    return '[%s]' % '; '.join('[%s]' % '; '.join('(%d)' % x for x in st) for st in v)
+
+
+def mixed_printed(doc, o):
+    """-> (Coq term of type printed, problems, page_bad): the element-counter part of every text (and the
+    target-counters() part, as a reference to the target's anchor point) goes to the Coq judge; the page-based parts
+    are judged here against the final pagination."""
+    root = doc['root']
+    got, problems, page_bad = {}, [], []
+    for page, eid, kind, text in o['texts']:
+        if (eid, kind) in got:
+            problems.append('box generated twice: %s::%s' % (eid, kind))
+        got[(eid, kind)] = (page, text)
+    pts = []
+    scope_points(root, pts)
+    index = {}
+    for j, (eid, kind, how) in enumerate(pts):
+        index[(eid, kind)] = j
+    nodes = {}
+    def collect(n):
+        nodes[n['id']] = n
+        for k in n['kids']:
+            collect(k)
+    collect(root)
+    lits = []
+    for eid, kind, how in pts:
+        if how is None:
+            if (eid, kind) in got:
+                problems.append('unexpected box %s::%s' % (eid, kind))
+            lits.append('PNone')
+            continue
+        item = got.pop((eid, kind), None)
+        if item is None:
+            problems.append('no box for %s::%s' % (eid, kind))
+            lits.append('(PTop (-999999))')
+            continue
+        page, text = item
+        if how == 'top':
+            m = re.fullmatch(r'(-?\d+)\. ', text)
+            lits.append('(PTop (%s))' % m.group(1) if m else '(PTop (-999999))')
+            if not m:
+                problems.append('unparsable marker %s %r' % (eid, text))
+            continue
+        parts = text.split('~')
+        own = parse_full(parts[0])
+        if own is None:
+            problems.append('unparsable %s::%s %r' % (eid, kind, text))
+            lits.append('(PTop (-999999))')
+            continue
+        n = nodes[eid]
+        expected_tags = n.get('extra', {}).get(kind, '')
+        if ''.join(p[:1] for p in parts[1:]) != expected_tags:
+            problems.append('%s::%s printed %r, parts %s expected' % (eid, kind, text, expected_tags))
+        ref = None
+        for part in parts[1:]:
+            tag, val = part[:1], part[1:]
+            tgt = n.get('href')
+            if tag == 'C':
+                t = parse_full(val)
+                j = index.get((tgt, 'before'), index.get((tgt, 'marker')))
+                if t is None or j is None:
+                    problems.append('unparsable target-counters %s::%s %r' % (eid, kind, text))
+                else:
+                    ref = (j, t)
+            elif tag == 'P':
+                want = '%d/%d' % (page, o['pages'])
+                if val != want:
+                    page_bad.append((eid, kind, 'counter(page)/counter(pages)', val, want))
+            elif tag == 'T':
+                want = str(min(o['elements'].get(tgt) or [0]))
+                if val != want:
+                    page_bad.append((eid, kind, 'target-counter(#%s, page)' % tgt, val, want))
+            elif tag == 'X':
+                want = 'w' + tgt[1:]
+                if val != want:
+                    page_bad.append((eid, kind, 'target-text(#%s)' % tgt, val, want))
+        if ref is None:
+            lits.append('(PFull %s)' % stacks_lit(own))
+        else:
+            lits.append('(PRef %s %d%%nat %s)' % (stacks_lit(own), ref[0], stacks_lit(ref[1])))
+    for (eid, kind) in got:
+        problems.append('unexpected box %s::%s' % (eid, kind))
+    return '[%s]' % '; '.join(lits), problems, page_bad
+
+
+def nodes_of(root):
+    out = {}
+    def collect(n):
+        out[n['id']] = n
+        for k in n['kids']:
+            collect(k)
+    collect(root)
+    return out
+
+
+def mixed_stream(run, rng, thorough):
+    import time
+    docs = [gen_mixed_doc(rng) for _ in range(900 if thorough else 130)]
+    cases = [{'html': mixed_html(d)} for d in docs]
+    t0 = time.time()
+    outs = common.run_impl('impl_c15', 'render_mixed', cases, limit=120)
+    t1 = time.time()
+    coq, kept = [], []
+    outcomes = {'ok': 0, 'not-converged': 0, 'page-part-wrong': 0}
+    nboxes, nmixed, npages, flavours = 0, 0, 0, {}
+    deferred = []          # page-part / crash failures are reported after the element-counter ones
+
+    def later(what, data, signature=None):
+        deferred.append((what, data, signature))
+    for d, c, (st, o) in zip(docs, cases, outs):
+        if st != 'ok':
+            later('render of a mixed-content counter document %s' % (
+                'timed out' if st == 'timeout' else 'raised %s at %s' % (o['type'], o['site'])),
+                {'stream': 'mixed-content-renders', 'html': c['html'], 'outcome': o},
+                signature='timeout' if st == 'timeout' else 'crash:%s' % (o['site'],))
+            continue
+        lit, problems, page_bad = mixed_printed(d, o)
+        nboxes += len(o['texts'])
+        nmixed += sum(1 for t in o['texts'] if '~' in t[3])
+        npages += o['pages']
+        flavours[d['flavour']] = flavours.get(d['flavour'], 0) + 1
+        data = {'stream': 'mixed-content-renders', 'html': c['html'], 'doc': d, 'flavour': d['flavour']}
+        if problems:
+            if d['flavour'] == 'marker' and all('::marker' in p for p in problems):
+                later('::marker content with page-based / target content is never parsed again: %s' % problems[0],
+                         dict(data, problems=problems[:5]), signature='c15:marker-content-never-reparsed')
+            else:
+                later('mixed-content counter document: %s' % problems[0], dict(data, problems=problems[:5]),
+                         signature='c15:mixed-boxes')
+            continue
+        if page_bad and o['loops'] >= o['max_loops']:
+            outcomes['not-converged'] += 1
+        elif page_bad:
+            outcomes['page-part-wrong'] += 1
+            order = d['order']
+            def mechanism(b):
+                """the known defect that explains this wrong page part, by the flavour's feature and the exact pattern"""
+                eid, kind, what, val, want = b
+                if d['flavour'] == 'marker' and kind == 'marker':
+                    return 'c15:marker-content-never-reparsed'
+                if d['flavour'] == 'undefined' and what.startswith('target-counter(') and val == '0':
+                    tgt = what[len('target-counter(#'):].split(',')[0]
+                    if tgt in order and eid in order and order.index(tgt) > order.index(eid):
+                        return 'c15:stale-lookup-item-forward-target-page'
+                if d['flavour'] == 'undefined' and what.startswith('counter(page)'):
+                    x = nodes_of(d['root'])[eid].get('extra', {}).get(kind, '')
+                    if 'P' in x and ('C' in x[x.index('P'):] or 'T' in x[x.index('P'):]):
+                        return 'c15:own-page-counters-lost-next-to-target-counters'
+                return None
+            by_sig = {}
+            for b in page_bad:
+                by_sig.setdefault(mechanism(b), b)
+            for sig, b in by_sig.items():
+                later('#%s::%s: %s printed %r, the final pagination says %r (layout loop stopped after %d of %d passes)'
+                         % (b[0], b[1], b[2], b[3], b[4], o['loops'], o['max_loops']),
+                         dict(data, page_bad=page_bad[:5]), signature=sig)
+        else:
+            outcomes['ok'] += 1
+        coq.append('([%s], %s, %s)' % ('; '.join(slit(x) for x in OBS_NAMES), nodelit(d['root']), lit))
+        kept.append((d, c))
+    try:
+        masks = common.eval_cases('c15mixed', PRE_SCOPE, SCOPE_T, coq, 'scope_judge', per_file=len(coq) // 16 + 1)
+    except RuntimeError as exc:
+        run.oblige('corr:mixed-content-renders', False, str(exc))
+        for what, data, signature in deferred:
+            run.fail(what, data, signature=signature)
+        return
+    mism = [c['html'] for (d, c), m in zip(kept, masks) if m & 1]
+    run.oblige('corr:mixed-content-renders(first-parse snapshot model = re-parsed content in full renders)', not mism,
+               'first disagreements: %s' % mism[:1])
+    seen = {}
+    for (d, c), m in zip(kept, masks):
+        if m & 2:
+            sig = None if m & 4 else 'c15:explicit-increment-suppresses-list-item'
+            if sig not in seen:
+                seen[sig] = (d, c)
+    for sig, (d, c) in seen.items():
+        run.fail('element counters printed next to page-based / target content differ from the document-order scoping'
+                 if sig is None else 'an explicit counter-increment on a list item suppresses the implicit list-item increment',
+                 {'stream': 'mixed-content-renders', 'html': c['html'], 'doc': d}, signature=sig)
+    for what, data, signature in deferred:
+        run.fail(what, data, signature=signature)
+    run.count('mixed-content-renders', len(kept), [c['html'] for _, c in kept], samples=[kept[1][1]['html'][:900]] if len(kept) > 1 else [])
+    run.stream_info('mixed-content-renders', boxes=nboxes, mixed_boxes=nmixed, pages=npages, outcomes=outcomes, flavours=flavours,
+                    impl_s=round(t1 - t0, 1), coq_s=round(time.time() - t1, 1),
+                    rule='counter trees as in scope-renders on pages 30-90px high; 75% of the ::before/::after/::marker contents '
+                         'append to counters(a)|counters(b)|counters(c)|counters(list-item) one or more of counter(page)/counter(pages), '
+                         'target-counter(attr(href), page), target-counters(attr(href), <the four names>), target-text(attr(href)) with '
+                         'href pointing to an element before or after; element parts (own and target) judged in Coq against the '
+                         'snapshot model and the CSS reference, page parts in Python against the final pagination '
+                         '(not-converged when the loop used all its passes); 80% clean documents (root resets the four counters, no '
+                         'page-based ::marker content, page counters before target counters), 20% add one feature with an open finding')
+
+
 # ---------------------------------------------------------------------- tables of contents (monitor, Python)
 
 def gen_toc(rng):
@@ -954,6 +1238,7 @@ def check(run):
     padneg_streams(run, rng, ua, thorough)
     scope_stream(run, rng, thorough)
     toc_stream(run, rng, thorough)
+    mixed_stream(run, rng, thorough)
     cases = [gen_raw_case(rng) for _ in range(800 if thorough else 100)]
     n = run_style_cases(run, 'raw-dictionaries', 'c15raw', cases, [], False)
     run.count('raw-dictionaries', n, [json.dumps(c['raw']) for c in cases], samples=[cases[0]['raw'][:1]])
@@ -971,6 +1256,21 @@ def replay(data):
         res, detail = judge_toc({'style': d.get('style', 'decimal')}, o)
         print('replay: outcome', res, detail, 'passes', o['loops'], 'of', o['max_loops'])
         return 1 if res in ('wrong', 'malformed') else 0
+    if d.get('stream') == 'mixed-content-renders':
+        (st, o), = common.run_impl('impl_c15', 'render_mixed', [{'html': d['html']}], limit=300)
+        if st != 'ok':
+            print('replay:', st, o)
+            return 1
+        lit, problems, page_bad = mixed_printed(d['doc'], o)
+        print('replay: texts', o['texts'][:10], 'problems', problems, 'page parts wrong', page_bad[:5],
+              'passes', o['loops'], 'of', o['max_loops'])
+        if problems:
+            return 1
+        m = common.eval_cases('c15replay', PRE_SCOPE, SCOPE_T,
+                              ['([%s], %s, %s)' % ('; '.join(slit(x) for x in OBS_NAMES), nodelit(d['doc']['root']), lit)],
+                              'scope_judge')
+        print('judge mask (1 = model differs, 2 = CSS reference differs, 4 = also with the list-item finding granted):', m[0])
+        return 1 if (m[0] & 5) or (page_bad and o['loops'] < o['max_loops']) else 0
     if d.get('stream') == 'scope-renders':
         (st, o), = common.run_impl('impl_c15', 'render_texts', [{'html': d['html']}], limit=300)
         if st != 'ok':
